@@ -14,7 +14,7 @@ def run(ctx):
     ctx.rule = ("case = one MZM/PM call replayed from a TLC lattice state (complete output compared) or one law/bound measurement judged by TLC; "
                 "class = (device, layout, noise, drive kind, scalar drive, pol, loss/ER) resp. (law, layout, noise, drive kind)")
     T = ctx.thorough
-    ctx.tlc("ModulatorsModel", "SPECIFICATION Spec\n" + INV + "CONSTANTS Qs <- QSet\n MaxLen = 2\n", note="lattice: all fields, drives, both pol; PM twice", timeout=3000)
+    ctx.tlc("ModulatorsModel", "SPECIFICATION Spec\n" + INV + "CONSTANTS Qs <- QSet\n MaxLen = 2\n", note="lattice: all fields, drives, both pol; PM twice", timeout=3000, actions=["Modulate", "Again"])
     r = ctx.tlc("ModulatorsModel", "SPECIFICATION Spec\n" + INV + "INVARIANT Emit\nCONSTANTS Qs <- QSmall\n MaxLen = 2\n", workers=1,
                 note="replayed lattice states", timeout=3000, count=False)
     ctx.exhaustive = True
